@@ -160,11 +160,11 @@ func (p *Parser) WaitClose() {
 }
 
 func (p *Parser) readRune() rune {
-	r, _, err := p.r.ReadRune()
+	r, size, err := p.r.ReadRune()
 	if p.escTimeout != nil {
 		p.escTimeout.Stop()
 	}
-	if r == unicode.ReplacementChar {
+	if r == unicode.ReplacementChar && size == 1 {
 		// If invalid UTF-8, let's read the byte and deliver
 		// it as is
 		err = p.r.UnreadRune()
